@@ -7,7 +7,7 @@ independent reference (`mc_refcli run`).  A representative subset covering every
 under the full product {script delivery} x {option variants}; `--verbose` must be refused; a --tx slice puts
 signature hashing on the path.
 """
-import itertools, json, os, random, shutil, sys, tempfile, time
+import itertools, json, os, random, shutil, subprocess, sys, tempfile, time
 from multiprocessing import Pool
 
 sys.path.insert(0, os.path.dirname(os.path.abspath(__file__)))
@@ -404,6 +404,23 @@ def _legacy_first_input(txhex):
     return items
 
 
+GEN_TX_LABELS = ["p2wsh-checksig long script", "p2tr-script long script", "p2sh-p2wsh", "p2sh-multisig", "multisig", "p2tr-key annex", "p2tr-script path=2 annex", "p2wpkh"]
+
+
+def gen_tx_cases(bdir):
+    """valid spends synthesised by mc_gen (reference model), auto-configured: output types doc/txs lacks, scripts longer than 256 bytes"""
+    import json
+    r = subprocess.run([os.path.join(bdir, "mc_gen"), "plans"], stdout=subprocess.PIPE, stderr=subprocess.DEVNULL, text=True, timeout=120)
+    out = []
+    for line in r.stdout.splitlines():
+        if not line.strip():
+            continue
+        p = json.loads(line)
+        if p["label"] in GEN_TX_LABELS and p["valid"]:
+            out.append(dict(label="tx:gen:" + p["label"], pre=["--tx=" + p["tx"], "--txin=" + p["txin"]], script=None, stack=[], expect=("ok", ["01"]), fl=""))
+    return out
+
+
 def tx_cases(repo):
     tx = open(os.path.join(repo, "doc/txs/p2pkh-tx")).read().strip()
     txin = open(os.path.join(repo, "doc/txs/p2pkh-in")).read().strip()
@@ -529,7 +546,7 @@ def run(ctx):
                     V.add("error-text-ambiguous:ref=" + e, "failures of reference class %s are reported with %d different texts: %s" % (
                         e, len(d), "; ".join("%r for %s" % (t, describe(c)) for t, (o, c) in ex[:3])), {"kind": "case", "case": ex[-1][1][1]})
             # -- --tx slice
-            tcs = tx_cases(ctx.repo)
+            tcs = tx_cases(ctx.repo) + gen_tx_cases(bdir)
             txres = pool.map(check_tx_case, [(bdir, scratch, tc) for tc in tcs], 1)
             tx_hist = {}
             rep_list = []
